@@ -67,6 +67,14 @@ def run(ctx):
                                                           "schedule_trace": [json.loads(x) for x in lines[start:v.line]]})
             ctx.violation(v.bad, keep, "EventProp clause %s broken at trace line %d: %s" % (v.bad, v.line, lines[v.line - 1][:400]))
             return
+    # the instance cache behind the cloud stage: an event parked for a lookup leaves only when the cache answers, also for an address it
+    # already holds (C12's driver: real CachedCloudProvider, scripted provider); an unanswered lookup is an undelivered event
+    import c12
+    _, found = c12.stage(ctx, [("bfs3", 3, None, None)])
+    for clause, keep, desc in found:
+        if clause.startswith("AnswerOnce"):
+            ctx.violation("Delivered(cache:" + clause + ")", keep, "an event waiting for this lookup would never be delivered: " + desc)
+            return
     for need in ("lookup-pending", "backend-held", "wait", "http-ingested", "mode:forwarder", "mode:standalone", "B=0", "B=2"):
         if named.get(need, 0) == 0:
             raise vlib.MachineryError("vacuity: %s never reached" % need)
